@@ -44,7 +44,9 @@ class SubSeedMismatch(Exception):
 
 class World:
     def __init__(self, ctx, batch_size, seed=7, max_batches=6, d_specials=(INF,), nested_d=0, extra_param=False,
-                 d_lo=None, bounded_prior=True):
+                 d_lo=None, bounded_prior=True, vector_summary=False, d_column=False):
+        self.vector_summary = vector_summary      # the summary is a (batch, 2) array (second column: symbols 'sv')
+        self.d_column = d_column                  # the discrepancy is a (batch, 1) column
         self.bounded_prior = bounded_prior
         self.ctx = ctx
         self.bs = batch_size
@@ -129,7 +131,9 @@ class World:
 
         def summ(y, meta=None):
             if meta is None:       # observed twin of the summary: computed from the observed data, no meta edge
-                return np.zeros((1,))
+                return np.zeros((1, 2)) if w.vector_summary else np.zeros((1,))
+            if w.vector_summary:
+                return np.column_stack([w.col('s', meta['batch_index'], len(y)), w.col('sv', meta['batch_index'], len(y))])
             return w.col('s', meta['batch_index'], len(y))
 
         def disc(s, observed=None, meta=None):
@@ -137,6 +141,8 @@ class World:
             if w.nested_d:
                 cols = [w.col('d%d' % k, b, len(s)) for k in range(w.nested_d)] + [w.col('d', b, len(s))]
                 return np.column_stack(cols)
+            if w.d_column:
+                return np.column_stack([w.col('d', b, len(s))])
             return w.col('d', b, len(s))
 
         m = elfi.ElfiModel()
